@@ -1,4 +1,6 @@
 """C18 — CalTRACK hourly: each hour belongs to its own month; bin features sum to T."""
+import contextlib
+import io
 import itertools
 
 import numpy as np
@@ -376,6 +378,37 @@ def fitw_cases(draw):
             "start_day": draw(st.integers(0, 700)), "days": draw(st.integers(70, 150))}
 
 
+def judge_wrapper(c, rec):
+    """The public wrapper fitted on a whole calendar year (leap years included): every baseline hour carries weight 1 in its own month's
+    design matrix and 0.5 in the two neighbours' - no hour of the baseline is left out."""
+    from opendsm import eemeter as em
+
+    year, tz = c["year"], c["tz"]
+    idx = pd.date_range("%d-01-01" % year, "%d-01-01" % (year + 1), freq="h", tz=tz, inclusive="left")
+    rng = np.random.default_rng(c["seed"])
+    doy = idx.dayofyear.values
+    T = 55 - 25 * np.cos((doy - 15) / 365 * 2 * np.pi) + 8 * np.sin((idx.hour.values - 9) / 24 * 2 * np.pi) + rng.normal(0, 3, len(idx))
+    y = (1 + 0.5 * np.sin((idx.hour.values - 14) / 24 * 2 * np.pi)) * (1 + 0.05 * np.clip(50 - T, 0, None) + 0.04 * np.clip(T - 68, 0, None)) + rng.normal(0, 0.1, len(idx))
+    with contextlib.redirect_stdout(io.StringIO()):
+        data = em.HourlyCaltrackBaselineData(pd.DataFrame({"temperature": T, "observed": y}, index=idx), is_electricity_data=True)
+        m = em.HourlyCaltrackModel().fit(data)
+    sdm = m.model_process_variables.segmented_design_matrices
+    ref = ref_weights(idx.month.values, "three_month_weighted")
+    if sorted(sdm) != sorted(ref):
+        rec.violation("wrapper/segments", c, "segments %s" % sorted(sdm))
+    else:
+        for name, dm in sdm.items():
+            got = dm["weight"].reindex(idx).fillna(0.0).values.astype(float)
+            want = ref[name].copy()
+            want[-1] = got[-1]  # the closing row of the data carries no usage
+            if not np.array_equal(got, want):
+                i = int(np.nonzero(got != want)[0][0])
+                rec.violation("wrapper/design-matrix-weights", c, "segment %s: baseline hour %s has weight %r in the fitted design matrix, the table gives %r (%d hours differ)" % (
+                    name, idx[i], got[i], want[i], int((got != want).sum())))
+                break
+    rec.case(c, True, ["sub=wrapper", "year=%d" % year, "leap=%d" % (len(idx) > 8760)])
+
+
 def judge_fitw(c, rec):
     from opendsm.eemeter.models.hourly_caltrack.design_matrices import (
         create_caltrack_hourly_preliminary_design_matrix, create_caltrack_hourly_segmented_design_matrices)
@@ -441,7 +474,7 @@ def judge_fitw(c, rec):
 
 
 JUDGES = {"cal": judge_calendar, "span": judge_span, "bins": judge_bins, "route": judge_route, "proc": judge_proc,
-          "fitw": judge_fitw}
+          "fitw": judge_fitw, "wrapper": judge_wrapper}
 
 
 def judge(c, rec):
@@ -462,6 +495,11 @@ def shards(tier, seed):
     out.append({"sub": "proc", "n": 150 if q else 2000, "seed": mix(seed, ID, "proc")})
     for i in range(3):
         out.append({"sub": "fitw", "n": 2 if q else 12, "seed": mix(seed, ID, "fitw", i)})
+    wr = [{"kind": "wrapper", "year": 2020, "tz": "America/Chicago", "seed": int(seed) % 1000}]
+    if not q:
+        wr += [{"kind": "wrapper", "year": 2019, "tz": "Asia/Kolkata", "seed": 5}, {"kind": "wrapper", "year": 2024, "tz": "Europe/Berlin", "seed": 6}]
+    for w in wr:
+        out.append({"sub": "cal", "cases": [w]})
     return out
 
 
